@@ -12,6 +12,9 @@ import json, os, re, shutil, subprocess, sys
 ROOT = os.path.dirname(os.path.dirname(os.path.abspath(__file__)))
 
 
+sys.path.insert(0, ROOT)
+
+
 def sh(cmd, cwd=None, env=None, timeout=3600):
     p = subprocess.run(cmd, cwd=cwd, env=env, shell=True, stdout=subprocess.PIPE, stderr=subprocess.STDOUT, text=True, timeout=timeout)
     return p.returncode, p.stdout
@@ -22,11 +25,14 @@ def main():
     wt = f'/tmp/wt/{prop}'
     src = f'/tmp/seed/{prop}'
     extra_props = []
+    store_as = None
     for i, a in enumerate(sys.argv):
         if a == '--wt':
             wt = sys.argv[i + 1]
         if a == '--src':
             src = sys.argv[i + 1]
+        if a == '--as':
+            store_as = sys.argv[i + 1]
         if a == '--also':
             extra_props = sys.argv[i + 1].split(',')
     diff = os.path.join(src, f'{which}.diff')
@@ -55,27 +61,26 @@ def main():
     if not (suite_ok and demo_fails and demo_passes):
         print(f'NOT CONFIRMED: suite_ok={suite_ok} demo_fails_with={demo_fails} demo_passes_without={demo_passes}')
         return 3
-    # run the checks against /repo with the change applied
-    rc, out = sh('git status --porcelain', cwd='/repo')
-    if out.strip():
-        print('/repo is not clean; refusing')
-        return 4
-    rc, out = sh(f'git apply {diff}', cwd='/repo')
-    if rc != 0:
-        print('patch does not apply to /repo:', out)
-        return 5
+    # run the checks against a scratch copy of /repo's current tree with the change applied (VERIF_REPO)
+    from selftest.drill import scratch
+    sc = scratch()
     caught = {}
     try:
+        rc, out = sh(f'patch -p1 -s -i {diff}', cwd=sc)
+        if rc != 0:
+            print('patch does not apply to the current /repo tree:', out)
+            return 5
+        env2 = dict(os.environ, VERIF_REPO=sc, VERIF_SCRATCH='1')
         for p in [prop] + extra_props:
-            rc, out = sh(f'./check {p}', cwd=ROOT)
+            rc, out = sh(f'./check {p}', cwd=ROOT, env=env2)
             fails = re.findall(r'FAIL (\S+)', out)
             caught[p] = {'exit': rc, 'violations': fails}
     finally:
-        sh('git checkout -- .', cwd='/repo')
+        shutil.rmtree(sc, ignore_errors=True)
     res['checks'] = caught
     print(json.dumps(caught, indent=1))
     hit = any(v['exit'] == 1 and v['violations'] for v in caught.values())
-    out_dir = os.path.join(ROOT, 'seeded', f'{prop}-{which}')
+    out_dir = os.path.join(ROOT, 'seeded', f'{prop}-{store_as or which}')
     os.makedirs(out_dir, exist_ok=True)
     shutil.copy(diff, os.path.join(out_dir, 'patch.diff'))
     shutil.copy(demo, os.path.join(out_dir, 'demo.rs'))
@@ -88,7 +93,7 @@ def main():
         'origin': 'independent sub-agent given only the property text and a scratch worktree',
         'confirmed': {'existing_suite_with_change': res['suite_with_change'], 'demo_with_change': res['demo_with_change'], 'demo_without_change': res['demo_without_change']},
         'what_i_ran': [f'git apply patch.diff (scratch worktree) ; cargo test --offline --lib ; cargo test --offline --test <demo> ; git checkout -- src ; cargo test --offline --test <demo>',
-                       'git -C /repo apply patch.diff ; ./check <prop> ; git -C /repo checkout -- .'],
+                       'scratch copy of /repo + patch.diff ; VERIF_REPO=<scratch> ./check <prop>'],
         'detected_by': {p: v['violations'] for p, v in caught.items() if v['violations']},
         'detected': hit,
     }
